@@ -47,6 +47,11 @@ def run(R, ctx):
     funnel(R, ctx)
     if ctx.has('async'):
         payloads(R, ctx)
+        # pooled buffers: what the async arm formats into must be empty - a buffer returned to the pool uncleared (e.g. a processed
+        # control message) would prefix a later record with stale bytes in the async modes only (shared with C03 R03.3/R03.4)
+        R.rule('R15.4', 'pooled buffers are cleared before they are reused (shared with R03.3/R03.4)')
+        import c03
+        c03.async_rules(_Map(R, {'R03.3': 'R15.4', 'R03.4': 'R15.4'}), ctx)
     else:
         R.ok('R15.1', 'no-async-feature', 'no channel in this configuration', nontrivial=False)
 
@@ -211,3 +216,17 @@ def payloads(R, ctx):
                     "b\"S\" / b\"F\" are taken as SHUTDOWN / FLUSH (the writer thread stops and later chunks are lost, resp. the chunk is swallowed)", where=b.loc(bb))
     if n < 4:
         raise CheckError(f"only {n} channel send sites found")
+
+
+class _Map:
+    def __init__(self, R, m):
+        self.R, self.m = R, m
+
+    def check(self, rule, *a, **kw):
+        return self.R.check(self.m.get(rule, rule), *a, **kw)
+
+    def bad(self, rule, *a, **kw):
+        return self.R.bad(self.m.get(rule, rule), *a, **kw)
+
+    def ok(self, rule, *a, **kw):
+        return self.R.ok(self.m.get(rule, rule), *a, **kw)
